@@ -87,7 +87,7 @@ def main():
         for mid, (f, props) in futs.items():
             r = f.result()
             out[mid] = r
-            caught = [p for p in props if isinstance(r.get(p), dict) and r[p]["exit"] == 1]
+            caught = [p for p in props if isinstance(r.get(p), dict) and r[p]["exit"] == 1 and r[p]["violations"]]
             others = [p for p in r if p not in props and isinstance(r[p], dict) and r[p]["exit"] == 1]
             broken = [p for p in r if isinstance(r[p], dict) and r[p]["exit"] == 2]
             status = "CAUGHT" if caught else "MISSED"
